@@ -41,6 +41,9 @@ LAYOUTS = ("C", "F", "strided")
 # the library's own tests use) does NOT obey the triangle inequality, so callers must not ask for the shortcut with it
 METRICS = ("euclidean", "manhattan", "chebyshev", "sqeuclid")
 TRUE_METRICS = ("euclidean", "manhattan", "chebyshev")
+# 'euclid_eps' imitates float32 rmsd kernels: the distance of a frame to itself is tiny but not exactly zero
+# (sqrt(d^2 + 1e-10) -> 1e-5), which the library explicitly tolerates (its warm-start assertion is `< 0.001`)
+METRICS_SELF_NONZERO = METRICS + ("euclid_eps",)
 
 
 def chebyshev_callable(X, y):
@@ -64,6 +67,15 @@ def sqeuclid_callable(X, y):
     return np.sum(d * d, axis=1)
 
 
+def euclid_eps_callable(X, y):
+    X = np.asarray(X, dtype=np.float64)
+    y = np.asarray(y, dtype=np.float64)
+    if X.shape[0] == 0:
+        return np.zeros(0, dtype=np.float64)
+    d = X - y[None, :]
+    return np.sqrt(np.sum(d * d, axis=1) + 1e-10)
+
+
 def library_metric(name):
     """The object to pass as `metric` / `distance_method` to enspara."""
     if name in ("euclidean", "manhattan"):
@@ -72,6 +84,8 @@ def library_metric(name):
         return chebyshev_callable
     if name == "sqeuclid":
         return sqeuclid_callable
+    if name == "euclid_eps":
+        return euclid_eps_callable
     raise ValueError(name)
 
 
@@ -88,6 +102,8 @@ def ref_dist(metric, X, y):
         return np.max(np.abs(diff), axis=1) if diff.shape[0] else np.zeros(0)
     if metric == "sqeuclid":
         return np.sum(diff * diff, axis=1)
+    if metric == "euclid_eps":
+        return np.sqrt(np.sum(diff * diff, axis=1) + 1e-10)
     raise ValueError(metric)
 
 
